@@ -99,6 +99,22 @@ def at_scale_case(ctx, g, rng):
         else:
             b.append(spec.Rec(r.prefix, f"http://q/{i}#", (f"Q{i}",), (), None))
     b += [spec.Rec(f"own{i}", f"http://own/{i}/", (), (), None) for i in range(n // 3)]
+    # one record of the first converter lists dozens or hundreds of synonyms, in the order its author wrote them, and a
+    # record of the second converter re-uses one of them (seed C09-W: above a number of synonyms the match bisects a
+    # list nobody sorted; the re-user becomes a record of its own)
+    k = rng.choice([31, 32, 33, 40, 64, 120, 300])
+    side = rng.choice(["curie", "uri"])
+    names = [f"syn{i}" for i in range(k)] if side == "curie" else [f"http://prov.org/{i}/" for i in range(k)]
+    if rng.random() < 0.5:
+        rng.shuffle(names)
+    victim = rng.choice(names)
+    if side == "curie":
+        a.append(spec.Rec("mm", "http://mm.org/", tuple(names), (), None))
+        b.append(spec.Rec(victim, "http://mmclaim.org/", (), (), None) if rng.random() < 0.5 else spec.Rec("mmclaim", "http://mmclaim.org/", (victim,), (), None))
+    else:
+        a.append(spec.Rec("mm", "http://mm.org/", (), tuple(names), None))
+        b.append(spec.Rec("mmclaim", victim, (), (), None) if rng.random() < 0.5 else spec.Rec("mmclaim", "http://mmclaim.org/", (), (victim,), None))
+    S.counters[f"wl:at-scale:many-synonyms:{side}:k{k}"] += 1
     with probe.monitor_mode():
         ca = api.Converter([gen.mk_record(api, r) for r in a])
         cb = api.Converter([gen.mk_record(api, r) for r in b])
@@ -106,9 +122,10 @@ def at_scale_case(ctx, g, rng):
     S.counters[f"wl:at-scale:n{n}:{o[0]}"] += 1
     if o[0] == "ret":
         res = o[1]
-        for r in rng.sample(a, k=8) + rng.sample(b, k=8):
+        for r in rng.sample(a, k=8) + rng.sample(b, k=8) + [a[-1], b[-1]]:
             call(res.expand, r.prefix + ":1")
             call(res.compress, r.uri_prefix + "1")
+        call(res.expand, victim + ":1") if side == "curie" else call(res.compress, victim + "1")
         P = [r.prefix for r in rng.sample(a, k=40)] + ["Q0", "zz"]
         call(res.get_subconverter, P)
         call(res.get_subconverter, ctx.pd.Series(P, dtype=object))
